@@ -202,7 +202,9 @@ impl NormalizedTimeDuration {
     pub(crate) fn total(&self, unit: Unit) -> TemporalResult<FiniteF64> {
         let time_duration = self.0;
         // 1. Let divisor be the value in the "Length in Nanoseconds" column of the row of Table 21 whose "Value" column contains unit.
-        let unit_nanoseconds = unit.as_nanoseconds().temporal_unwrap()?;
+        let unit_nanoseconds = unit.as_nanoseconds().ok_or(
+            TemporalError::range().with_message("unit must be a day or time unit for total."),
+        )?;
         // 2. NOTE: The following step cannot be implemented directly using floating-point arithmetic when 𝔽(timeDuration) is not a safe integer.
         // The division can be implemented in C++ with the __float128 type if the compiler supports it, or with software emulation such as in the SoftFP library.
         // 3. Return timeDuration / divisor.
